@@ -215,6 +215,12 @@ func exec(c px.Context, op string, args []sx.Sexp) (res core.Result) {
 	if op == "declq" {
 		return execDeclq(c, args)
 	}
+	if op == "typerace" {
+		return execTypeRace(args)
+	}
+	if op == "sysloader" {
+		return execSysLoader(args)
+	}
 	if op == "declstress" {
 		return execDeclStress(c, args)
 	}
@@ -927,6 +933,9 @@ func gen(g *core.G) {
 	genFiles(g)
 	// the declare / resolve queue
 	genDeclq(g)
+	// the runtime's lazily created system loader: first use after Reset by several goroutines at once (free-running)
+	g.Emit("sysloader 6 3")
+	g.Emit("sysloader 1 1") // malformed: fewer than two goroutines
 
 	// 3. malformed
 	for _, l := range []string{
